@@ -172,6 +172,16 @@ func runDeployment1(d *Deployment, rt routes, prefixes []string, c *vlib.Cases, 
 		for i := range cfg.Discovery.Static.Endpoints {
 			cfg.Discovery.Static.Endpoints[i].ModelURL = "" // profile default discovery path
 		}
+		// the provider constraint must hold under every routing strategy an operator may configure
+		switch len(d.EPs) % 3 {
+		case 1:
+			cfg.ModelRegistry.RoutingStrategy.Type = "discovery"
+			cfg.ModelRegistry.RoutingStrategy.Options.DiscoveryRefreshOnMiss = true
+			cfg.ModelRegistry.RoutingStrategy.Options.FallbackBehavior = "compatible_only"
+		case 2:
+			cfg.ModelRegistry.RoutingStrategy.Type = "optimistic"
+			cfg.ModelRegistry.RoutingStrategy.Options.FallbackBehavior = "compatible_only"
+		}
 	}})
 	if err != nil {
 		return err.Error()
